@@ -232,7 +232,7 @@ def c10(sc, tier, seed):
 
 
 def c14(sc, tier, seed):
-    return transition_check(sc, tier, seed, 'C14', ['MC_multi'], walks=['MC_multi_walk'], quick_n=22000, walk_n=(400, 4000),
+    return transition_check(sc, tier, seed, 'C14', ['MC_multi', 'MC_multi2'], walks=['MC_multi_walk'], quick_n=22000, walk_n=(400, 4000),
                             rule='TLC enumerates all 21952 programs of length 3 of two connections over {SELECT 0/1/15/16/-1, FLUSHDB, FLUSHALL, DBSIZE, SET/GET of a key name that holds different values in databases 0 and 1, KEYS *, CLIENT SETNAME/GETNAME, HELLO 3}, checks SessionIsolation, NamespaceIsolation and FlushGlobal on the ideal reading, and replays every program on real connections (replies, all databases after every step, and finally each connection\'s selected db / protocol / name / MULTI state); plus random walks of depth 8 of three connections (also HELLO 2/4, MULTI/EXEC, invalid names).')
 
 
